@@ -23,17 +23,20 @@ use std::{
 };
 use tokio::io::{AsyncRead, AsyncWrite, ReadBuf};
 
-const NP: usize = 3;
-const HANDSHAKE: [u8; 4] = [1, 2, 3, 4];
+#[path = "c11_hs.rs"]
+mod hs;
+
+pub(crate) const NP: usize = 3;
+pub(crate) const HANDSHAKE: [u8; 4] = [1, 2, 3, 4];
 
 // ---------------------------------------------------------------- scripted byte carrier
 
 #[derive(Default)]
-struct IoState {
-    read_buf: VecDeque<u8>,
-    read_eof: bool,
-    write_err: bool,
-    flush_open: bool,
+pub(crate) struct IoState {
+    pub(crate) read_buf: VecDeque<u8>,
+    pub(crate) read_eof: bool,
+    pub(crate) write_err: bool,
+    pub(crate) flush_open: bool,
     shutdown_gated: bool,
     hs_pushed: bool,
     dropped: bool,
@@ -41,9 +44,9 @@ struct IoState {
 }
 
 #[derive(Clone, Default)]
-struct IoCtl(Arc<Mutex<IoState>>);
+pub(crate) struct IoCtl(pub(crate) Arc<Mutex<IoState>>);
 
-struct ScriptedIo(IoCtl);
+pub(crate) struct ScriptedIo(pub(crate) IoCtl);
 
 impl Drop for ScriptedIo {
     fn drop(&mut self) {
@@ -104,7 +107,7 @@ impl IoCtl {
     fn live(&self) -> bool {
         !self.0.lock().unwrap().dropped
     }
-    fn push_handshake(&self) {
+    pub(crate) fn push_handshake(&self) {
         let mut s = self.0.lock().unwrap();
         s.read_buf.push_back(HANDSHAKE.len() as u8);
         s.read_buf.extend(HANDSHAKE.iter());
@@ -620,6 +623,9 @@ fn batch_code(order: &[usize]) -> u64 {
 /// Runs the case; returns the trace and the case as it was run (the argument of a batch command is
 /// rewritten to the order in which the implementation worked through its peers).
 fn run_case(c: &[u64]) -> Option<(Vec<u64>, Vec<u64>)> {
+    if c.first() == Some(&hs::TAG) {
+        return hs::run_case(c);
+    }
     if c.len() < 4 {
         return None;
     }
@@ -982,7 +988,7 @@ pub fn main(args: &Args) {
             .unwrap_or((vec![0], c.to_vec()))
     };
     for c in stored.iter() {
-        let sleeps = c.len() >= 4 && (0..c[3] as usize).any(|i| matches!(c.get(4 + 3 * i), Some(&19) | Some(&28)));
+        let sleeps = c.len() >= 4 && c[0] != hs::TAG && (0..c[3] as usize).any(|i| matches!(c.get(4 + 3 * i), Some(&19) | Some(&28)));
         if sleeps && !thorough && args.str("replay").is_none() {
             continue; // real 5 s sleeps: thorough tier only
         }
@@ -994,7 +1000,9 @@ pub fn main(args: &Args) {
     }
     for _ in 0..ncases {
         let mut r = rng.fork();
-        let c = if r.chance(25) {
+        let c = if r.chance(8) {
+            hs::gen_case(&mut r)
+        } else if r.chance(25) {
             if r.chance(12) {
                 gen_lstale(&mut r)
             } else {
